@@ -382,9 +382,14 @@ def parse_model_out(s):
         return ("arr", t[1] == "1", int(t[2]), np.array([float(v) for v in pv(t[3])]))
     if t[0] == "smp":
         cols = pm(t[2])
+        if len({len(c) for c in cols}) > 1:
+            return ("raw", s)          # ragged columns (a model-side shape inconsistency): never equal to an implementation value
         return ("smp", int(t[1]), True, np.array([[float(v) for v in c] for c in cols]).T if cols else np.zeros((0, 0)))
     if t[0] == "err":
         return ("err", t[1])
+    if t[0] == "mat":
+        rows = pm(t[2])
+        return ("mat", np.array([[float(v) for v in r] for r in rows]) if rows else np.zeros((int(t[1]), 0)))
     return ("raw", s)
 
 
@@ -399,6 +404,8 @@ def same_canon(a, b, tol):
         return a[1] == b[1] and a[2] == b[2] and veq(a[3], b[3], tol)
     if a[0] == "smp":
         return a[1] == b[1] and a[2] == b[2] and a[3].shape == b[3].shape and veq(a[3], b[3], tol)
+    if a[0] == "mat":
+        return a[1].shape == b[1].shape and veq(a[1], b[1], tol)
     return a == b
 
 
@@ -409,6 +416,8 @@ def short(c):
         return ["arr", c[1], c[2], [round(float(v), 9) for v in c[3][:8]]]
     if c[0] == "smp":
         return ["smp", c[1], c[2], np.round(c[3], 9).tolist()[:4]]
+    if c[0] == "mat":
+        return ["mat", np.round(c[1], 9).tolist()[:6]]
     return list(c)
 
 
@@ -601,8 +610,12 @@ def run(ctx):
             else:
                 FXs = None
         # out-of-scope / malformed stream (tie only): arrays carrying a foreign geometry, argument-passing errors
-        if D.family in ("id", "perm", "map") or D.label in ("StepExpansion", "UserGeometry"):
+        if D.family in ("id", "perm", "map") or D.label in ("StepExpansion", "UserGeometry", "KLExpansion"):
             reps.append(("arr-foreign-par", False, lambda: model.forward(CUQIarray(x.copy(), is_par=True, geometry=foreign)), fwd_line(f"arr:1:2:{qv(x)}", True)))
+            # a CUQIarray built without a geometry carries the default geometry; sent as "foreign" when it is unequal to both model geometries
+            dflt = CUQIarray(x.copy()).geometry
+            if eq_eval(dflt, Dg) == "F" and eq_eval(dflt, Rg) == "F":
+                reps.append(("arr-default-par", False, lambda: model.forward(CUQIarray(x.copy())), fwd_line(f"arr:1:2:{qv(x)}", True)))
             if len(D.fun_shape) == 1 and len(fx) == D.par_dim:
                 reps.append(("arr-foreign-funflag-argT", False, lambda: model.forward(CUQIarray(x.copy(), is_par=False, geometry=foreign)), fwd_line(f"arr:0:2:{qv(x)}", True)))
                 reps.append(("arr-foreign-argF", False, lambda: model.forward(CUQIarray(fx.copy(), is_par=True, geometry=foreign), is_par=False), fwd_line(f"arr:1:2:{qv(fx.ravel())}", False)))
@@ -723,9 +736,16 @@ def run(ctx):
     # -------------------------------------------------------------------- call histories on one model object
     histories(ctx, cuqi, rng, lines, pending, verdicts, 400 if thorough else 40)
 
+    # -------------------------------------------------------------------- session-3 streams (own random streams; harness/props/c12_ext.py)
+    from harness.props import c12_ext
+    c12_ext.nofun2par_ranges(ctx, cuqi, lines, pending, verdicts, oracle_jobs, 96 if thorough else 16)
+    c12_ext.linear_objects(ctx, cuqi, lines, pending, verdicts, 480 if thorough else 48)
+    c12_ext.constructors(ctx, cuqi, lines, pending, thorough)
+
     # -------------------------------------------------------------------- model side + diff
     outs = ctx.lean.drive(lines)
     inexact = 0
+    singular = 0
     tie_bad = {}
     for (i, key, desc, impl, tol) in pending:
         out = outs[i]
@@ -739,12 +759,18 @@ def run(ctx):
             ok = True
         elif out == "unmodelled":
             ok = True
+        elif impl == ("err", "LinAlgError") and str(desc.get("model", "")).startswith("pde"):
+            # the generated PDE system A0 + diag(par2fun x) happened to be singular: scipy raises, the driver's exact solver has no
+            # exception class for it (it prints an empty vector).  Outside the modelled domain: not compared (counted).
+            singular += 1
+            ok = True
         else:
             ok = same_canon(mo, impl, tol)
         if not ok:
             ctx.disagree(key, desc, out[:300], short(impl) if impl[0] != "raw" else impl[1], "model and implementation differ")
             tie_bad.setdefault(key, []).append(desc)
     ctx.extra_cov["model_inexact_marker"] = inexact
+    ctx.extra_cov["singular_pde_system_not_compared"] = singular
 
     # -------------------------------------------------------------------- oracle
     for job in oracle_jobs:
@@ -1605,6 +1631,22 @@ def histories(ctx, cuqi, rng, lines, pending, verdicts, nhist):
                 ctx.fail(f"history:{lab}:depends-on-history", desc, short(before[lab]), short(after[lab]), "the same call gives another result after the history")
 
 
+FOREIGN_FWD = ["arr-foreign-par", "arr-foreign-funflag-argT", "arr-foreign-argF", "arr-default-par"]
+
+
+def _is_parameters_of(c, Rg, fun_ref):
+    """is the returned canonical value `c` a parameter vector p of the geometry `Rg` with Rg.par2fun(p) == fun_ref ?"""
+    if fun_ref is None or c[0] not in ("nd", "arr"):
+        return False
+    data = c[1] if c[0] == "nd" else c[3]
+    try:
+        with quiet():
+            back = np.asarray(Rg.par2fun(np.array(data, dtype=float)), dtype=float).ravel()
+    except Exception:
+        return False
+    return back.shape == fun_ref.shape and veq(back, fun_ref, 1e-7)
+
+
 IN_SCOPE_FWD = ["nd-par", "nd-par-kw", "nd-fun", "arr-par", "arr-par-eqgeom", "arr-par-eqgeom-argF", "arr-par-argF", "arr-fun",
                 "arr-fun-argF", "arr-fun-eqgeom", "arr-fun-eqgeom-argF"]
 
@@ -1621,15 +1663,41 @@ def oracle_forward(ctx, cuqi, verdicts, conf, M, D, R, model, Dg, Rg, x, fx, Xs,
         ref_err = None
     except Exception as e:
         ref, ref_err = None, type(e).__name__
+    fun_ref = None
+    if ref is None:
+        try:
+            with quiet():
+                fun_ref = np.asarray(M.core(np.asarray(Dg.par2fun(x), dtype=float).ravel()), dtype=float).ravel()
+        except Exception:
+            fun_ref = None
     desc0 = {**conf, "call": "forward", "x": x.tolist()}
+    # "wrapped like the input" for CUQIarrays that carry a geometry other than the model's (foreign / default geometry):
+    # whatever value comes back, it is a CUQIarray flagged parameters on the range geometry
+    for kind in FOREIGN_FWD:
+        c = results.get(kind)
+        if c is None or c[0] == "err":
+            continue
+        desc = {**desc0, "input": kind}
+        if not (c[0] == "arr" and c[1] is True and c[2] == gR):
+            ctx.fail(f"forward:{kind}:wrap", desc, "CUQIarray flagged parameters on the range geometry", short(c),
+                     "a CUQIarray input (carrying another geometry than the model's) did not give a CUQIarray output: not wrapped like the input")
+            verdicts["forward:foreign:wrap-wrong"] = verdicts.get("forward:foreign:wrap-wrong", 0) + 1
+        else:
+            verdicts["forward:foreign:wrap-ok"] = verdicts.get("forward:foreign:wrap-ok", 0) + 1
     for kind in IN_SCOPE_FWD:
+        if kind not in results:
+            continue
         c = results[kind]
         desc = {**desc0, "input": kind}
         key = f"forward:{kind}"
         if ref is None:
-            # the range geometry cannot express the output as parameters: every representation must refuse alike
-            if c[0] != "err":
-                ctx.fail(key + ":refusal", desc, f"{ref_err} (range geometry has no fun2par)", short(c))
+            # the range geometry cannot express the output as parameters: refuse, or return a p with R.par2fun(p) == F(D.par2fun(x))
+            if c[0] != "err" and not _is_parameters_of(c, Rg, fun_ref):
+                ctx.fail(key + ":refusal", desc, f"{ref_err} (range geometry has no fun2par), or parameters p with par2fun(p) = {None if fun_ref is None else np.round(fun_ref, 9).tolist()[:8]}",
+                         short(c), "the range geometry has no fun2par, yet a value was returned that is not the parameter representation of the operator output")
+                verdicts["forward:no-fun2par:wrong"] = verdicts.get("forward:no-fun2par:wrong", 0) + 1
+            else:
+                verdicts["forward:no-fun2par:refused"] = verdicts.get("forward:no-fun2par:refused", 0) + 1
             continue
         if c[0] == "err":
             sfx = ":geometry-eq-raises" if (conf.get("geometry_eq_raises") and c[1] in ("IndexError", "KeyError")) else ""
@@ -1646,12 +1714,22 @@ def oracle_forward(ctx, cuqi, verdicts, conf, M, D, R, model, Dg, Rg, x, fx, Xs,
         verdicts["forward:checked"] = verdicts.get("forward:checked", 0) + 1
     # Samples: column-wise, Samples on the range geometry
     for kind in ("samples", "samples-eqgeom", "samples-nogeom"):
+        if kind not in results:
+            continue
         c = results[kind]
         desc = {**desc0, "input": kind, "Xs": Xs.tolist()}
         key = f"forward:{kind}"
         if ref is None:
             if c[0] != "err":
-                ctx.fail(key + ":refusal", desc, ref_err, short(c))
+                ok_cols = c[0] == "smp" and c[3].shape[1] == Xs.shape[1]
+                if ok_cols:
+                    for j in range(Xs.shape[1]):
+                        with quiet():
+                            fj = np.asarray(M.core(np.asarray(Dg.par2fun(Xs[:, j]), dtype=float).ravel()), dtype=float).ravel()
+                        ok_cols = ok_cols and _is_parameters_of(("nd", c[3][:, j]), Rg, fj)
+                if not ok_cols:
+                    ctx.fail(key + ":refusal", desc, f"{ref_err} (range geometry has no fun2par) or columns that are parameters of the outputs", short(c),
+                             "the range geometry has no fun2par, yet Samples were returned whose columns are not parameter representations of the outputs")
             continue
         cols = np.column_stack([ref_of(Xs[:, j]) for j in range(Xs.shape[1])])
         if c[0] != "smp":
